@@ -310,13 +310,13 @@ func callLog(cs []Call) string {
 // c08Prog: ops distributed over the handlers of a chain; pre[i] runs before
 // handler i calls Next(), post[i] after.
 type c08Prog struct {
-	Pre, Post [][]respOp
-	NGlobal   int
-	FailAt    int
-	Short     int
-	Method    string
-	OnError   []respOp // nil = no OnError hook; else what the hook does (may be empty)
-	HasHook   bool
+	Pre, Post  [][]respOp
+	NGlobal    int
+	FailAt     int
+	Short      int
+	Method     string
+	OnError    []respOp // nil = no OnError hook; else what the hook does (may be empty)
+	HasHook    bool
 	ReaderFrom bool     // the underlying writer implements io.ReaderFrom
 	NoFlusher  bool     // the underlying writer is no http.Flusher
 	Direct     bool     // the (single) handler is mounted as a plain http.Handler: rux.HandlerFunc(h).ServeHTTP, no router
